@@ -121,6 +121,7 @@ type exec struct {
 
 	fst            storage.Interface
 	ds, dsC, dsG   *utils.DirStructure
+	fsState        string                // comp fst: what stands at the root's place while the database is open (fss line)
 	handles        []*utils.DirStructure // comp dsh: node 0 = NewDirStructure(root), then every child in order of registration
 	chdLog         []dshCall             // comp dsh: the ChildDir calls of this case (replayed when the sandbox is rebuilt)
 	rootGiven      string
@@ -233,7 +234,7 @@ func (e *exec) build() {
 	e.caseDir = filepath.Join(scratchBase, fmt.Sprintf("c%d", caseNo.Add(1)))
 	// the sandbox top sits 8 levels below the case directory: generated climbs (at most depth+3 parent
 	// references, 6 in mixed names) stay inside the case directory even if a broken component follows them
-	top := filepath.Join(e.caseDir, "p1/p2/p3/p4/p5/p6/p7/p8/sb")
+	top := e.caseDir + SB
 	must(os.MkdirAll(top, 0o755))
 	var decoy func(dir string)
 	switch e.comp {
@@ -294,6 +295,7 @@ func (e *exec) restoreInside() {
 			_, err := db.Put(fstRecord(k, "IN:"+k))
 			must(err)
 		}
+		e.applyFsState()
 	case "ds":
 		if e.variant == "noexist" {
 			_ = os.RemoveAll(root)
@@ -322,6 +324,46 @@ func (e *exec) restoreInside() {
 		}
 		must(os.MkdirAll(filepath.Join(root, "tmp"), 0o700))
 		e.ds = utils.NewDirStructure(e.rootGiven, 0o755)
+	}
+}
+
+var fsStates = map[string]bool{"plain": true, "rmroot": true, "rootfile": true, "rmd": true, "dfile": true, "extra": true, "bad": true, "empty": true}
+
+// applyFsState changes what is below (or at) the root behind the back of the open database.
+func (e *exec) applyFsState() {
+	root := e.sb.root
+	recBytes := func(key string) []byte { // a well-formed record file, as Put writes it
+		b, err := os.ReadFile(filepath.Join(root, "a"))
+		must(err)
+		return bytes.Replace(b, []byte("IN:a"), []byte("IN:"+key), 1)
+	}
+	switch e.fsState {
+	case "plain":
+	case "rmroot": // the database directory was removed
+		must(os.RemoveAll(root))
+	case "rootfile": // ... and replaced by a (well-formed record) file
+		b := recBytes(".")
+		must(os.RemoveAll(root))
+		must(os.WriteFile(root, b, 0o644))
+	case "rmd": // an intermediate directory is missing
+		must(os.RemoveAll(filepath.Join(root, "d")))
+	case "dfile": // an intermediate directory was replaced by a file
+		b := recBytes("d")
+		must(os.RemoveAll(filepath.Join(root, "d")))
+		must(os.WriteFile(filepath.Join(root, "d"), b, 0o644))
+	case "extra": // entries inside the root whose names extend the name of a directory
+		for _, k := range []string{"da", "dx/f"} {
+			_, err := e.fst.Put(fstRecord(k, "IN:"+k))
+			must(err)
+		}
+	case "bad": // a file that is not a record
+		must(os.WriteFile(filepath.Join(root, "c0"), []byte("not a record"), 0o644))
+	case "empty":
+		ents, err := os.ReadDir(root)
+		must(err)
+		for _, en := range ents {
+			must(os.RemoveAll(filepath.Join(root, en.Name())))
+		}
 	}
 }
 
@@ -363,6 +405,7 @@ func (e *exec) Do(line string) string {
 		}
 		e.comp, e.rootRel, e.variant, e.cwdRel = f[1], rr, f[3], cw
 		e.chdLog = nil
+		e.fsState = "plain"
 		if e.comp != "lib" {
 			e.build()
 		}
@@ -373,6 +416,14 @@ func (e *exec) Do(line string) string {
 	}
 	if e.comp == "lib" {
 		return e.doLib(f)
+	}
+	if e.comp == "fst" && f[0] == "fss" {
+		if len(f) != 2 || !fsStates[f[1]] {
+			return "bad-op"
+		}
+		e.fsState = f[1]
+		e.restoreInside()
+		return "ok"
 	}
 	// the harness's own inspection of the sandbox (listing, searching the written marker) happens in
 	// prepare / finish, outside the observed window: only the component call itself is observed.
@@ -636,7 +687,7 @@ func (e *exec) prepFst(op, key string) (func(), finishFn) {
 		if qerr != nil {
 			return func() {}, func() (string, bool) { return "acc oserr", false }
 		}
-		var keys []string
+		var keys, decoys []string
 		var iterErr error
 		return func() {
 				var it interface {
@@ -650,22 +701,29 @@ func (e *exec) prepFst(op, key string) (func(), finishFn) {
 				it = iter
 				for r := range iter.Next {
 					keys = append(keys, r.DatabaseKey())
+					// a record whose content is a decoy's content was read from outside, whatever its key says
+					if w, ok := r.(*record.Wrapper); ok && strings.HasPrefix(string(w.Data), "OUTSIDE:") {
+						decoys = append(decoys, string(w.Data)[8:])
+					}
 				}
 				iterErr = it.Err()
 			}, func() (string, bool) {
 				if err != nil {
 					return classify(err), false
 				}
-				// The walk's error is stored by iterator.Finish *after* it closed Next (DESIGN §7 #17, a C02 matter),
-				// so a consumer cannot read it reliably. A failed walk (missing walk root) delivers no keys, and that is
-				// what is compared; only the synchronous error of Query itself is "acc oserr".
-				_ = iterErr
+				// iterator.Finish stores the walk's error before it closes Next (C02's fix), so it can be read here:
+				// "walkerr" = the walk ended with an error (a file that is not a record, a walk root behind a file).
 				out := make([]string, len(keys))
 				for i, k := range keys {
 					out[i] = s.virt(filepath.Join(s.root, k))
 				}
 				sort.Strings(out)
-				return "acc keys " + hxList(out), false
+				out = append(out, decoys...)
+				d := "acc keys " + hxList(out)
+				if iterErr != nil {
+					d += " walkerr"
+				}
+				return d, false
 			}
 	}
 	return nil, nil
@@ -727,13 +785,7 @@ func (e *exec) prepDsh(f []string) (func(), finishFn) {
 		idx := -1
 		return func() { idx = e.dshChild(c) }, func() (string, bool) {
 			e.chdLog = append(e.chdLog, c)
-			p := s.virt(e.handles[idx].Path)
-			if p == SB || strings.HasPrefix(p, SB+"/") {
-				p = hx(p)
-			} else {
-				p = "above"
-			}
-			return fmt.Sprintf("child %d %s", idx, p), false
+			return fmt.Sprintf("child %d %s", idx, hx(s.virt(e.handles[idx].Path))), false
 		}
 	}
 	var err error
